@@ -99,6 +99,28 @@ fn check_reference(st: &Store, e: Node, ra: &RefMap, rn: &RefMap, out: &mut Out,
     if &got_n != rn {
         out.fail(case, "ordered-map-namespaces", &format!("step {} `{}`: namespaces are {:?} but an insertion-ordered map gives {:?}", step, op, got_n, rn));
     }
+    // what the updates hand back, tried on throw-away copies of the store: insert returns the previous value (also when the new
+    // value equals it), an occupied entry's insert returns the old value, remove returns the removed value
+    {
+        let ns: Vec<(xot::PrefixId, xot::NamespaceId)> = st.xot.namespaces(e).to_vec();
+        for (p, n) in &ns {
+            let mut c = st.xot.clone();
+            match guard(|| c.namespaces_mut(e).insert(*p, *n)) { Ok(Some(old)) if old == *n => {}, other => out.fail(case, "map-return-value", &format!("step {}: namespaces_mut.insert of the present pair returned {:?}", step, other)) }
+            let mut c = st.xot.clone();
+            match guard(|| match c.namespaces_mut(e).entry(*p) { xot::Entry::Occupied(mut o) => Some(o.insert(*n)), xot::Entry::Vacant(_) => None }) { Ok(Some(old)) if old == *n => {}, other => out.fail(case, "map-return-value", &format!("step {}: the occupied namespace entry's insert returned {:?}", step, other)) }
+            let mut c = st.xot.clone();
+            match guard(|| c.namespaces_mut(e).remove(*p)) { Ok(Some(old)) if old == *n => {}, other => out.fail(case, "map-return-value", &format!("step {}: namespaces_mut.remove of a present prefix returned {:?}", step, other)) }
+        }
+        let at: Vec<(xot::NameId, String)> = st.xot.attributes(e).to_vec();
+        for (k, v) in &at {
+            let mut c = st.xot.clone();
+            match guard(|| c.attributes_mut(e).insert(*k, v.clone())) { Ok(Some(old)) if old == *v => {}, other => out.fail(case, "map-return-value", &format!("step {}: attributes_mut.insert of the present pair returned {:?}", step, other)) }
+            let mut c = st.xot.clone();
+            match guard(|| match c.attributes_mut(e).entry(*k) { xot::Entry::Occupied(mut o) => Some(o.insert(v.clone())), xot::Entry::Vacant(_) => None }) { Ok(Some(old)) if old == *v => {}, other => out.fail(case, "map-return-value", &format!("step {}: the occupied attribute entry's insert returned {:?}", step, other)) }
+            let mut c = st.xot.clone();
+            match guard(|| c.attributes_mut(e).remove(*k)) { Ok(Some(old)) if old == *v => {}, other => out.fail(case, "map-return-value", &format!("step {}: attributes_mut.remove of a present name returned {:?}", step, other)) }
+        }
+    }
     // accessors against the reference
     let a = st.xot.attributes(e);
     if a.len() != ra.len() || a.is_empty() != ra.is_empty() {
